@@ -65,6 +65,9 @@ class Check:
                 new.append(v)
         os.makedirs(os.path.join(VERIF, 'evidence'), exist_ok=True)
         os.makedirs(os.path.join(VERIF, 'replay'), exist_ok=True)
+        import glob as _glob
+        for old in _glob.glob(os.path.join(VERIF, 'replay', self.pid + '-*.json')):
+            os.unlink(old)
         oks = [o for o in self.obls if o['status'] == 'ok']
         distinct = len(set((o['rule'], o['instance']) for o in self.obls if o['nontrivial']))
         rules = {}
